@@ -35,6 +35,19 @@ Theorem C03_is_leaf_iff :
 Proof. exact is_leaf_iff. Qed.
 Print Assumptions C03_is_leaf_iff.
 
+(* all_leaves(xs) holds exactly when every element is a leaf: the loop of AllLeavesImpl (predicate first,
+   then the kind of the element under the registry; stop at the first non-leaf) is, element by element, the
+   test of tree_is_leaf — whatever the neighbouring elements are *)
+Theorem C03_all_leaves_iff :
+  forall c xs, all_leaves c xs = true <->
+  forall x, In x xs -> flatten c x = Ok ([x], {| trav := [leaf_node]; snil := c_nil c; sns := spec_ns c false |}).
+Proof.
+  intros c xs. unfold all_leaves. rewrite forallb_forall. split; intros H x Hx.
+  - apply is_leaf_iff. exact (H x Hx).
+  - apply is_leaf_iff. exact (H x Hx).
+Qed.
+Print Assumptions C03_all_leaves_iff.
+
 (* "an input that makes one traversal raise makes all of them raise the same exception type" is
    FALSE of the faithful model when two faults are present: a custom node whose entries have the
    wrong length and whose child is nested deeper than the limit makes the recursive flatten raise
